@@ -123,6 +123,7 @@ inductive Op where
                                  -- the receiving object is the storage from now on, the moved-from one becomes `other`
   | swapobj                      -- from now on the caller uses `other` (no move, both objects keep what they own)
   | allocThrow (k : Nat) (sz : Nat)  -- `promise_extra_storage::alloc` whose factory / `T`'s constructor throws
+  | allocFail (k : Nat) (sz : Nat)   -- a request during which `operator new` (if it is called at all) throws `bad_alloc`
   deriving DecidableEq, Repr
 
 inductive Res where
@@ -131,6 +132,7 @@ inductive Res where
   | obj (k : Nat) (size : Nat)
   | unit
   | rejected                     -- the library's `assert` fired: nothing happened
+  | failed                       -- `std::bad_alloc` left `alloc`: no frame
   | bad
   deriving DecidableEq, Repr
 
@@ -287,6 +289,49 @@ def stepAllocThrow (s : State) (k sz : Nat) : State × Res :=
 def stepAllocThrowAsIs (s : State) (k sz : Nat) : State × Res :=
   ({ (stepAlloc s k sz).1 with frames := s.frames }.sameFramesAs s, Res.unit)
 
+/-- A request during which `operator new` throws `bad_alloc`.  Where the policy would not call `operator new` at all the
+request is served as usual.  Otherwise no frame comes into existence and:
+* `default_storage`, the busy path of `reusable_storage_mtsafe`, the fall-backs of `stack_storage` / `static_storage`:
+  nothing has happened yet;
+* `std::vector::resize`: strong guarantee, nothing changes;
+* the growth of `reusable_storage` (repaired code): the old block has been deleted, `_ptr = nullptr; _capacity = 0;` —
+  an empty storage; `reusable_storage_mtsafe` additionally clears `_busy` before the exception leaves. -/
+def stepAllocFail (s : State) (k sz : Nat) : State × Res :=
+  match s.cfg.pol with
+  | .default => (s, Res.failed)
+  | .reusable =>
+      if need s.cfg sz > s.cap then
+        ({ s with heap := s.heap.delOpt s.ptr, ptr := none, cap := 0, vsize := 0, ok := s.ok && s.frames.isEmpty }, Res.failed)
+      else stepAlloc s k sz
+  | .mtsafe =>
+      if s.busy then (s, Res.failed)
+      else if need s.cfg sz > s.cap then
+        ({ s with heap := s.heap.delOpt s.ptr, ptr := none, cap := 0, vsize := 0, busy := false }, Res.failed)
+      else stepAlloc s k sz
+  | .stack _ =>
+      match s.objs[k]? with
+      | none => stepAlloc s k sz
+      | some asz => if need s.cfg sz ≤ asz then stepAlloc s k sz else (s, Res.failed)
+  | .placement _ => stepAlloc s k sz
+  | .buffer itemsz =>
+      if s.cap < (need s.cfg sz + itemsz - 1) / itemsz then (s, Res.failed) else stepAlloc s k sz
+  | .static space asserts =>
+      if need s.cfg sz ≤ space then stepAlloc s k sz
+      else if asserts then stepAlloc s k sz
+      else (s, Res.failed)
+
+/-- the pinned `reusable_storage::alloc`: `delete _ptr; _ptr = new(sz)` — when `new` throws, `_ptr` keeps the address
+of the deleted block and `_capacity` its size; `reusable_storage_mtsafe` additionally keeps `_busy` set -/
+def stepAllocFailAsIs (s : State) (k sz : Nat) : State × Res :=
+  match s.cfg.pol with
+  | .reusable =>
+      if need s.cfg sz > s.cap then ({ s with heap := s.heap.delOpt s.ptr }, Res.failed) else stepAlloc s k sz
+  | .mtsafe =>
+      if s.busy then (s, Res.failed)
+      else if need s.cfg sz > s.cap then ({ s with heap := s.heap.delOpt s.ptr, busy := true }, Res.failed)
+      else stepAlloc s k sz
+  | _ => stepAllocFail s k sz
+
 def step (s : State) (op : Op) : State × Res :=
   match op with
   | Op.alloc k sz => stepAlloc s k sz
@@ -297,6 +342,7 @@ def step (s : State) (op : Op) : State × Res :=
   | Op.moveOut => stepMoveOut s
   | Op.swapobj => stepSwapobj s
   | Op.allocThrow k sz => stepAllocThrow s k sz
+  | Op.allocFail k sz => stepAllocFail s k sz
 
 def run (s : State) (ops : List Op) : State := ops.foldl (fun s op => (step s op).1) s
 
